@@ -37,4 +37,4 @@ def run(shard):
         if nb >= 2:
             H.distinct(H.code_key(code))
 
-    D.drive(shard, "C13", on_decoded, "C13.partition", variants=3)
+    D.drive(shard, "C13", on_decoded, "C13.partition", variants=3, stress_same=D.same_shape)
